@@ -31,6 +31,13 @@ Judge(B) ==
     [] B.op = "swap" ->
          Fails(<< <<"P:C09:result-wf", ResultWF(B.res, n)>>,
                   <<"P:C09:swap", NoForeign(B.res.root) => CR(B.res) = SwizzleC(C0(B), SwapGuide(n, B.d))>> >>)
+    [] B.op = "flatswap" ->
+         \* swap of a tensor one of whose ranks already holds tuple coordinates (the result of an earlier flatten, B.fd): points move like in any swap, and
+         \* swapping twice restores the flattened tensor
+         LET C1 == {<<FlattenPt(x[1], B.fd, 1, B.style, sh), x[2]>> : x \in C0(B)} IN
+         Fails(<< <<"P:C09:result-wf", ResultWF(B.res, n - 1)>>,
+                  <<"P:C09:swap", NoForeign(B.res.root) => CR(B.res) = SwizzleC(C1, SwapGuide(n - 1, B.d))>>,
+                  <<"P:C09:swap-involution", NoForeign(B.res2.root) => CR(B.res2) = C1>> >>)
     [] B.op = "flatten" ->
          Fails(<< <<"P:C09:result-wf", ResultWF(B.res, n - B.levels)>>,
                   <<"P:C09:flatten-image", NoForeign(B.res.root) => CR(B.res) = {<<FlattenPt(x[1], B.d, B.levels, B.style, sh), x[2]>> : x \in C0(B)}>>,
